@@ -166,13 +166,17 @@ PROPS = {
         "theorems": ["Akd.C03.history_complete",
                      "Akd.C05.membership_complete", "Akd.C05.membership_complete_leaf", "Akd.C05.nonmembership_complete",
                      "Akd.C08.markers_no_panic", "Akd.C08.past_lt_start", "Akd.C08.future_bounds"],
-        "streams": ["l1.dir.c03"],
-        # one case in four also serves histories (Complete, MostRecent 1..3) from pinned read-only instances lagging
+        "streams": ["l1.dir.c03", "l1.sched.hist"],
+        # l1.sched.hist: the history requests of the C13 scheduler scenario (a publish gives the label its next version while
+        # its history is being generated); one case in four also serves histories (Complete, MostRecent 1..3) from pinned read-only instances lagging
         # 0..3 epochs behind storage; a returned proof that does not verify is a C03 failure as much as a C13 one
         "also_reports": ["C13"],
         "rule": "histories as in C02; for every label: Complete and MostRecent(n) for n in {1,2,3,total,total+1,1000}: real "
                 "HistoryProof compared with the model's; oracle line spec.history: real key_history_verify result list vs the "
-                "specification's version list (newest first, all or newest n)",
+                "specification's version list (newest first, all or newest n); l1.sched.hist: Complete / MostRecent(1,2) "
+                "histories of a label on an instance interleaved at storage-call granularity with the publish of that label's next "
+                "version (all schedules with at most 2, thorough 3, preemptions; uncached, own cache, cache shared with the writer): "
+                "what is returned is an error or verifies against a published (epoch, root) and is the label's history at it",
         "assumptions": [],
     },
     "C04": {
@@ -267,7 +271,10 @@ PROPS = {
                 "complete and most-recent histories and audits; every answer is compared with the model (a directory whose epoch "
                 "record is pinned while node records advance) and judged by the oracle: error, or an (epoch, root hash) pair the "
                 "writer really published for that epoch together with a proof that verifies against it",
-        "assumptions": ["the change poller is not explored",
+        "assumptions": ["change poller: modelled on the epoch record only (Poll.lean); tokio's write-preferring RwLock is modelled as "
+                        "'the poller takes the lock when no guarded request is under way' (the trace validator queues requests behind "
+                        "a waiting poller, as the real lock does); the poll period is explored on a paused clock",
+                        "lock-less flush_cache calls made by an application DURING requests are outside the claim (DESIGN 0.4)",
                         "CacheFill model: one cache entry, content abstracted to a version number; an entry does not expire between the "
                         "generation check and the insertion of one TimedCache::fill call (the residual window is stated: evict_in_fill_witness)"],
     },
